@@ -600,9 +600,11 @@ class World:
                     raise requests.exceptions.HTTPError(
                         '%s simulated for %s' % (p.get('code', 500), name))
             res = orig(obj, *a, **k)
-            if self.host_answers is not None and name in (
-                    'Repository.get_build_status',):
-                self.host_answers.append((name, list(a), dict(k), res))
+            if self.host_answers is not None and \
+                    name == 'Repository.get_build_status':
+                self.host_answers.append(
+                    [k.get('revision', a[0] if a else None),
+                     k.get('key', a[1] if len(a) > 1 else None), res])
             return res
         # ---- a host write: a remote-mutating operation
         kk = self.nmut
@@ -687,7 +689,10 @@ class World:
         self.stats['jobs'] += 1
         rec = {'n': self.njob, 'job': desc, 'mut': [], 'plan': plan,
                'refs_before': self.refs(), 't': self.clock.t,
-               'record_cmds': record_cmds, 'cmds': []}
+               'record_cmds': record_cmds, 'cmds': [],
+               'prs_before': self.pr_states(),
+               'ncomments_before': len(self.mock.Comment.items)}
+        self.host_answers = rec['answers'] = []
         self.cur = rec
         self.plan = plan
         self.fired = False
@@ -718,6 +723,8 @@ class World:
         rec['details'] = job.details
         rec['ncmd'] = self.ncmd
         rec['refs_after'] = self.refs()
+        rec['prs_after'] = self.pr_states()
+        self.host_answers = None
         rec['new_comments'] = [
             {'pr': c.pull_request_id, 'by': c.user['username'],
              'text': c.content['raw']}
@@ -848,6 +855,9 @@ class World:
                                        for x in p.participants),
             })
         return out
+
+    def pr_states(self):
+        return {p.id: p.state for p in self.mock.PullRequest.items}
 
     def comments(self, pr_id=None):
         return [{'id': c.id, 'pr': c.pull_request_id,
